@@ -14,6 +14,7 @@ package hotstuffpb
 //@ func QuorumSignatureFromProto property C10
 //@   mode bytebv
 //@   requires wireheap()
+//@   ensures [no-typed-nil] istype(result, *crypto.BLS12AggregateSignature) ==> as(result, *crypto.BLS12AggregateSignature) != nil
 //@   modifies alloc
 //@ func PartialCertFromProto property C10
 //@   requires wireheap()
